@@ -190,6 +190,7 @@ type c9Fail struct {
 }
 
 type c9Exec struct {
+	ranges  [][2]int // per operation of the history: handles [lo,hi) it created
 	hs      []*c9Handle
 	pure    [][]int
 	prev    []string
@@ -619,6 +620,7 @@ func c9RunList(h c9Hist, sum *Summary, count bool) (*c9Exec, string) {
 	for si, o := range h.Ops {
 		before := len(e.hs)
 		ops := e.apply(o)
+		e.ranges = append(e.ranges, [2]int{before, len(e.hs)})
 		if ops == nil && len(e.hs) == before {
 			if e.fail != nil {
 				break
@@ -647,7 +649,7 @@ func c9RunList(h c9Hist, sum *Summary, count bool) (*c9Exec, string) {
 				bad = fmt.Sprintf("size()/[i] show %v", ob.Items)
 			}
 			if bad != "" {
-				sig := "changed:" + e.hs[i].creator + ":by:" + o.K
+				sig := "changed-by:" + o.K
 				what := fmt.Sprintf("handle %d (created by %s) was bound to %v; after step %d (%s) %s", i, e.hs[i].creator, want, si+1, o.String(), bad)
 				if i >= before {
 					sig = "wrong-at-creation:" + o.K
@@ -667,6 +669,7 @@ func c9RunList(h c9Hist, sum *Summary, count bool) (*c9Exec, string) {
 // ---------------------------------------------------------------- map histories
 
 type c9MapExec struct {
+	ranges  [][2]int
 	ms      []value.Map
 	litFn   []funcGen.Func[value.Value]
 	creator []string
@@ -924,6 +927,7 @@ func c9RunMap(h c9Hist, sum *Summary, count bool) (*c9MapExec, string) {
 	for si, o := range h.Ops {
 		before := len(e.ms)
 		ops := e.apply(o)
+		e.ranges = append(e.ranges, [2]int{before, len(e.ms)})
 		if ops == nil {
 			continue
 		}
@@ -966,10 +970,10 @@ func c9RunMap(h c9Hist, sum *Summary, count bool) (*c9MapExec, string) {
 				}
 			}
 			if bad != "" {
-				sig := "changed:" + e.creator[i] + ":by:" + o.K
+				sig := "map-changed-by:" + o.K
 				what := fmt.Sprintf("map handle %d (created by %s) was bound to %v; after step %d (%s) %s", i, e.creator[i], want, si+1, o.String(), bad)
 				if i >= before {
-					sig = "wrong-at-creation:" + o.K
+					sig = "map-wrong-at-creation:" + o.K
 					what = fmt.Sprintf("map handle %d, result of step %d (%s), must be %v by the functional model; %s", i, si+1, o.String(), want, bad)
 				}
 				e.failNow(sig, what)
@@ -995,7 +999,7 @@ func c9ListMapAPIFacts() map[string]any {
 	cv, _ := c.Get("x")
 	_, _ = b, d
 	return map[string]any{
-		"listMap.Append overwrites the receiver's value for an existing key": fmt.Sprint(av) == "2",
+		"listMap.Append overwrites the receiver's value for an existing key":    fmt.Sprint(av) == "2",
 		"two listMap.Append on one receiver with spare capacity share the cell": fmt.Sprint(cv) == "4",
 	}
 }
@@ -1015,9 +1019,9 @@ func (r *Rng) c9Ints(n int) []int {
 func (r *Rng) genListHist(maxOps int) c9Hist {
 	h := c9Hist{Kind: "list"}
 	n := 2 + r.Pick(maxOps-1)
-	handles := 0       // number of handles so far (as predicted; windows make this approximate)
-	sizes := []int{}   // predicted content sizes
-	lits := []int{}    // handles that are constants of a generated function
+	handles := 0     // number of handles so far (as predicted; windows make this approximate)
+	sizes := []int{} // predicted content sizes
+	lits := []int{}  // handles that are constants of a generated function
 	focus := -1
 	creator := func() {
 		switch k := r.Pick(10); {
@@ -1288,37 +1292,78 @@ func c9Case(h c9Hist, id int, sum *Summary, cw *CaseWriter) {
 	}
 }
 
-// shrink a failing history: drop operations (renumbering nothing: handles of dropped creators make later
-// operations no-ops) while the same signature is still produced
+// shrink a failing history while the same signature is produced: cut the tail, then drop single
+// operations (the handles they created disappear, later references are renumbered; an operation whose
+// handles are still referenced cannot be dropped)
 func c9Shrink(h c9Hist, sig string) c9Hist {
-	sigOf := func(x c9Hist) string {
+	run := func(x c9Hist) (string, [][2]int) {
 		scratch := NewSummary("C09", 0, "shrink")
 		if x.Kind == "map" {
 			e, _ := c9RunMap(x, scratch, false)
 			if e.fail != nil {
-				return e.fail.Sig
+				return e.fail.Sig, e.ranges
 			}
-			return ""
+			return "", e.ranges
 		}
 		e, _ := c9RunList(x, scratch, false)
 		if e.fail != nil {
-			return e.fail.Sig
+			return e.fail.Sig, e.ranges
 		}
-		return ""
+		return "", e.ranges
 	}
-	// operations after the failing step are irrelevant: cut from the end first
 	for len(h.Ops) > 1 {
 		c := c9Hist{Kind: h.Kind, Ops: h.Ops[:len(h.Ops)-1]}
-		if sigOf(c) != sig {
+		if s, _ := run(c); s != sig {
 			break
 		}
 		h = c
+	}
+	usesB := func(k string) bool { return k == "concat" || k == "merge" }
+	for changed := true; changed; {
+		changed = false
+		_, ranges := run(h)
+		for k := len(h.Ops) - 2; k >= 0 && k < len(ranges); k-- {
+			lo, hi := ranges[k][0], ranges[k][1]
+			var ops []c9Op
+			okDrop := true
+			for j, o := range h.Ops {
+				if j == k {
+					continue
+				}
+				if j > k {
+					refs := []*int{&o.A}
+					if usesB(o.K) {
+						refs = append(refs, &o.B)
+					}
+					if o.K == "lit" || o.K == "litapp" || o.K == "litrt" || o.K == "numbers" || o.K == "mlit" || o.K == "mlitrt" {
+						refs = nil
+					}
+					for _, r := range refs {
+						if *r >= lo && *r < hi {
+							okDrop = false
+						} else if *r >= hi {
+							*r -= hi - lo
+						}
+					}
+				}
+				ops = append(ops, o)
+			}
+			if !okDrop {
+				continue
+			}
+			c := c9Hist{Kind: h.Kind, Ops: ops}
+			if s, _ := run(c); s == sig {
+				h = c
+				changed = true
+				break
+			}
+		}
 	}
 	return h
 }
 
 func cmdC09(seed int64, tier, outDir string) {
-	n := 500
+	n := 400
 	if tier == "thorough" {
 		n = 30000
 	}
@@ -1329,7 +1374,7 @@ func cmdC09(seed int64, tier, outDir string) {
 	r := NewRng(seed)
 	sum := NewSummary("C09", seed, tier)
 	sum.Rule = "histories of <= 12 (thorough: 20) operations over a pool of handles, executed through the expression language, every live handle observed after every step (string(), size(), [i], =, first(); maps: string(), size(), get(k), Iter); non-trivial = list history in which one parent has >= 2 derivations of which >= 1 is an append onto spare capacity (in place), or map history with >= 3 handles; distinct by the operation sequence"
-	cw := NewCaseWriter(outDir, "From P2 Require Import Base.Prelude Heap.ListHeap Heap.MapHeap Run.C09Run.", "c09_case", "c09_id", "c09_im", "c09_is", map[string]int{"quick": 90, "thorough": 500}[tier])
+	cw := NewCaseWriter(outDir, "From P2 Require Import Base.Prelude Heap.ListHeap Heap.MapHeap Run.C09Run.", "c09_case", "c09_id", "c09_im", "c09_is", map[string]int{"quick": 70, "thorough": 500}[tier])
 	if optReplay != "" {
 		var h c9Hist
 		if err := json.Unmarshal(loadReplayCase(), &h); err != nil {
@@ -1371,6 +1416,19 @@ func cmdC09(seed int64, tier, outDir string) {
 		h := c9Shrink(gv.Human["repro"].(c9Hist), gv.Sig)
 		gv.Human["repro"] = h
 		gv.Human["history"] = h.String()
+		// describe the failure of the shrunk history
+		scratch := NewSummary("C09", 0, "shrink")
+		var f *c9Fail
+		if h.Kind == "map" {
+			e, _ := c9RunMap(h, scratch, false)
+			f = e.fail
+		} else {
+			e, _ := c9RunList(h, scratch, false)
+			f = e.fail
+		}
+		if f != nil && f.Sig == gv.Sig {
+			gv.What, gv.Expected, gv.Observed = f.What, f.Expected, f.Observed
+		}
 	}
 	sum.Extra["listMap_API_facts"] = c9ListMapAPIFacts()
 	sum.Write(outDir)
